@@ -233,11 +233,11 @@ def _build_add(E, s, calls, rev=False, single=False, ctx=None):
     wb = WorkflowBuilder(name='wfname')
     for j in range(n):
         p = [tasks[i] for (i, jj) in edges if jj == j]
-        if rev:
+        if len(p) > 1 and rev:
             p.reverse()
         if not p:
             wb.add_task(tasks[j])
-        elif single and len(p) == 1:
+        elif len(p) == 1 and single:
             wb.add_task(tasks[j], predecessors=p[0])
         else:
             wb.add_task(tasks[j], predecessors=p)
@@ -247,23 +247,50 @@ def _build_add(E, s, calls, rev=False, single=False, ctx=None):
 # ---------------------------------------------------------------------------------------------------------
 # obligations
 
-def exec_add(n: int, e01: bool, e02: bool, e12: bool, e03: bool, e13: bool, e23: bool, e04: bool, e14: bool,
+def _structure_ok_unordered(w, objs, edges):
+    """As _structure_ok, without demanding an order of tasks / input_tasks / output_tasks."""
+    ts = w.tasks
+    if len(ts) != len(objs) or len(w) != len(objs):
+        return False
+    ident = {}
+    for t in ts:
+        hit = [u for u, o in objs.items() if o is t]
+        if len(hit) != 1:
+            return False
+        ident[id(t)] = hit[0]
+    if len(set(ident.values())) != len(objs):
+        return False
+    got = set()
+    got2 = set()
+    for t in ts:
+        for p in w.get_predecessors(t):
+            got.add((ident[id(p)], ident[id(t)]))
+        for q in w.get_successors(t):
+            got2.add((ident[id(t)], ident[id(q)]))
+    nodes = list(objs)
+    return (got == set(edges) and got2 == set(edges)
+            and sorted(ident[id(t)] for t in w.input_tasks) == sorted(_sources(nodes, edges))
+            and sorted(ident[id(t)] for t in w.output_tasks) == sorted(_sinks(nodes, edges)))
+
+
+def exec_add(e01: bool, e02: bool, e12: bool, e03: bool, e13: bool, e23: bool, e04: bool, e14: bool,
              e24: bool, e34: bool, rev: bool, single: bool, s0: int, s1: int, s2: int, s3: int, s4: int) -> bool:
     """
-    Workflow built by add_task (predecessor lists in entry or reversed order, a lone predecessor optionally passed
-    as a Task): as_dask_dict evaluates to the reference value of the single sink, every task once; static inputs
-    first, then predecessor results in entry order; a workflow without exactly one sink is refused (ValueError).
-    pre: _shape_ok(n, (e01, e02, e12, e03, e13, e23, e04, e14, e24, e34))
+    Workflow of N tasks built by add_task (predecessor lists in entry or reversed order, a lone predecessor optionally
+    passed as a Task): builder and workflow hold exactly the declared tasks and edges in entry order; as_dask_dict
+    evaluates to the reference value of the single sink, every task exactly once, static inputs first, then
+    predecessor results in entry order; a workflow without exactly one sink is refused (ValueError).
     post: _ == True
     """
     _fresh()
     E = (e01, e02, e12, e03, e13, e23, e04, e14, e24, e34)
     s = (s0, s1, s2, s3, s4)
     calls = []
-    tasks, edges, wb = _build_add(n, E, s, calls, rev, single)
+    tasks, edges, wb = _build_add(E, s, calls, rev, single)
     wf = Workflow(wb)
-    nodes = list(range(n))
-    if not _structure_ok(wb, dict(enumerate(tasks)), edges) or not _structure_ok(wf, dict(enumerate(tasks)), edges):
+    nodes = list(range(N))
+    objs = dict(enumerate(tasks))
+    if not _structure_ok(wb, objs, edges) or not _structure_ok(wf, objs, edges):
         return False
     if [t.name for t in wf.tasks] != [f't{i}' for i in nodes] or wf.name != 'wfname':
         return False
@@ -271,15 +298,14 @@ def exec_add(n: int, e01: bool, e02: bool, e12: bool, e03: bool, e13: bool, e23:
     return _check_exec(wf, nodes, edges, expected, calls)
 
 
-def exec_add__twin(n: int, e01: bool, e02: bool, e12: bool, e03: bool, e13: bool, e23: bool, e04: bool, e14: bool,
+def exec_add__twin(e01: bool, e02: bool, e12: bool, e03: bool, e13: bool, e23: bool, e04: bool, e14: bool,
                    e24: bool, e34: bool, rev: bool, single: bool, s0: int, s1: int, s2: int, s3: int,
                    s4: int) -> bool:
     """
-    pre: _shape_ok(n, (e01, e02, e12, e03, e13, e23, e04, e14, e24, e34))
-    pre: n >= 3 and e02 and e12
+    pre: e02 and e12 and len(_sinks(list(range(N)), _edges((e01, e02, e12, e03, e13, e23, e04, e14, e24, e34)))) == 1
     post: _ == True
     """
-    return not exec_add(n, e01, e02, e12, e03, e13, e23, e04, e14, e24, e34, rev, single, s0, s1, s2, s3, s4)
+    return not exec_add(e01, e02, e12, e03, e13, e23, e04, e14, e24, e34, rev, single, s0, s1, s2, s3, s4)
 
 
 class _Dispatcher:
@@ -288,20 +314,17 @@ class _Dispatcher:
 
     def run(self, workflow, context):
         self.seen = (workflow, context)
-        if len(workflow.output_tasks) != 1:
-            return None
         return _get(workflow.as_dask_dict())
 
 
-def exec_context(n: int, e01: bool, e02: bool, e12: bool, e03: bool, e13: bool, e23: bool, e04: bool, e14: bool,
+def exec_context(e01: bool, e02: bool, e12: bool, e03: bool, e13: bool, e23: bool, e04: bool, e14: bool,
                  e24: bool, e34: bool, c0: bool, c1: bool, c2: bool, c3: bool, c4: bool, ctx: int,
                  s0: int, s1: int, s2: int, s3: int, s4: int) -> bool:
     """
-    The real execute_workflow (task rewriting + insert_context) with a recording dispatcher: the dispatched workflow
-    has exactly the declared tasks (those whose function takes `context` first get it prepended to their static
-    inputs, the others keep their inputs) and the declared edges, and evaluates to the reference value.
-    pre: _shape_ok(n, (e01, e02, e12, e03, e13, e23, e04, e14, e24, e34))
-    pre: len(_sinks(list(range(n)), _edges(n, (e01, e02, e12, e03, e13, e23, e04, e14, e24, e34)))) == 1
+    The real execute_workflow (task rewriting + insert_context) with a recording dispatcher, on single-sink graphs:
+    the dispatched workflow has exactly the declared tasks (those whose function takes `context` first get it
+    prepended to their static inputs, the others keep their inputs) and the declared edges, and evaluates to the
+    reference value (re-entered tasks last in entry order).
     post: _ == True
     """
     _fresh()
@@ -309,15 +332,16 @@ def exec_context(n: int, e01: bool, e02: bool, e12: bool, e03: bool, e13: bool, 
     s = (s0, s1, s2, s3, s4)
     c = (c0, c1, c2, c3, c4)
     calls = []
-    tasks, edges, wb = _build_add(n, E, s, calls, ctx=c)
+    nodes = list(range(N))
+    if len(_sinks(nodes, _edges(E))) != 1:
+        return True         # not in the claim of this obligation (exec_add covers the refusal)
+    tasks, edges, wb = _build_add(E, s, calls, ctx=c)
     wf = Workflow(wb)
     disp = _Dispatcher()
     got = X.execute_workflow(wf, dispatcher=disp, context=ctx)
     if disp.seen is None or disp.seen[1] is not ctx:
         return False
-    nodes = list(range(n))
     run_wf = disp.seen[0]
-    # declared tasks, by name (names are distinct), with the documented inputs
     ts = run_wf.tasks
     if sorted(t.name for t in ts) != [f't{i}' for i in nodes]:
         return False
@@ -333,7 +357,6 @@ def exec_context(n: int, e01: bool, e02: bool, e12: bool, e03: bool, e13: bool, 
             got_edges.add((int(p.name[1:]), int(t.name[1:])))
     if got_edges != set(edges):
         return False
-    # entry order of the executed workflow: tasks without context first, re-entered tasks (context) at the end
     entry = [i for i in nodes if not c[i]] + [i for i in nodes if c[i]]
     pre = {i: (ctx,) for i in nodes if c[i]}
     expected = reference(nodes, edges, [_statics(i, s) for i in nodes], entry, pre)
@@ -341,36 +364,34 @@ def exec_context(n: int, e01: bool, e02: bool, e12: bool, e03: bool, e13: bool, 
     return got == expected[sink] and sorted(calls) == nodes
 
 
-def exec_context__twin(n: int, e01: bool, e02: bool, e12: bool, e03: bool, e13: bool, e23: bool, e04: bool,
+def exec_context__twin(e01: bool, e02: bool, e12: bool, e03: bool, e13: bool, e23: bool, e04: bool,
                        e14: bool, e24: bool, e34: bool, c0: bool, c1: bool, c2: bool, c3: bool, c4: bool, ctx: int,
                        s0: int, s1: int, s2: int, s3: int, s4: int) -> bool:
     """
-    pre: _shape_ok(n, (e01, e02, e12, e03, e13, e23, e04, e14, e24, e34))
-    pre: len(_sinks(list(range(n)), _edges(n, (e01, e02, e12, e03, e13, e23, e04, e14, e24, e34)))) == 1
-    pre: n >= 3 and e02 and e12 and c0 and not c1
+    pre: e02 and e12 and c0 and not c1
+    pre: len(_sinks(list(range(N)), _edges((e01, e02, e12, e03, e13, e23, e04, e14, e24, e34)))) == 1
     post: _ == True
     """
-    return not exec_context(n, e01, e02, e12, e03, e13, e23, e04, e14, e24, e34, c0, c1, c2, c3, c4, ctx,
+    return not exec_context(e01, e02, e12, e03, e13, e23, e04, e14, e24, e34, c0, c1, c2, c3, c4, ctx,
                             s0, s1, s2, s3, s4)
 
 
-def insert_context_structure(n: int, e01: bool, e02: bool, e12: bool, e03: bool, e13: bool, e23: bool, e04: bool,
+def insert_context_structure(e01: bool, e02: bool, e12: bool, e03: bool, e13: bool, e23: bool, e04: bool,
                              e14: bool, e24: bool, e34: bool, c0: bool, c1: bool, c2: bool, c3: bool, c4: bool,
                              ctx: int) -> bool:
     """
     insert_context on a builder: tasks whose function has `context` as first parameter are replaced by a task with
     the same name and function and inputs (context, *old inputs); every other task object is kept; edges are kept.
-    pre: _shape_ok(n, (e01, e02, e12, e03, e13, e23, e04, e14, e24, e34))
     post: _ == True
     """
     _fresh()
     E = (e01, e02, e12, e03, e13, e23, e04, e14, e24, e34)
     c = (c0, c1, c2, c3, c4)
     s = (10, 11, 12, 13, 14)
-    tasks, edges, wb = _build_add(n, E, s, [], ctx=c)
+    tasks, edges, wb = _build_add(E, s, [], ctx=c)
     W.insert_context(wb, ctx)
     objs = {}
-    for i in range(n):
+    for i in range(N):
         cands = [t for t in wb.tasks if t.name == f't{i}']
         if len(cands) != 1:
             return False
@@ -386,57 +407,30 @@ def insert_context_structure(n: int, e01: bool, e02: bool, e12: bool, e03: bool,
     return _structure_ok_unordered(wb, objs, edges) and _structure_ok_unordered(Workflow(wb), objs, edges)
 
 
-def _structure_ok_unordered(w, objs, edges):
-    ts = w.tasks
-    if len(ts) != len(objs) or len(w) != len(objs):
-        return False
-    ident = {}
-    for t in ts:
-        hit = [u for u, o in objs.items() if o is t]
-        if len(hit) != 1:
-            return False
-        ident[id(t)] = hit[0]
-    if len(set(ident.values())) != len(objs):
-        return False
-    got = set()
-    for t in ts:
-        for p in w.get_predecessors(t):
-            got.add((ident[id(p)], ident[id(t)]))
-    got2 = set()
-    for t in ts:
-        for q in w.get_successors(t):
-            got2.add((ident[id(t)], ident[id(q)]))
-    nodes = list(objs)
-    return (got == set(edges) and got2 == set(edges)
-            and sorted(ident[id(t)] for t in w.input_tasks) == sorted(_sources(nodes, edges))
-            and sorted(ident[id(t)] for t in w.output_tasks) == sorted(_sinks(nodes, edges)))
-
-
-def insert_context_structure__twin(n: int, e01: bool, e02: bool, e12: bool, e03: bool, e13: bool, e23: bool,
+def insert_context_structure__twin(e01: bool, e02: bool, e12: bool, e03: bool, e13: bool, e23: bool,
                                    e04: bool, e14: bool, e24: bool, e34: bool, c0: bool, c1: bool, c2: bool,
                                    c3: bool, c4: bool, ctx: int) -> bool:
     """
-    pre: _shape_ok(n, (e01, e02, e12, e03, e13, e23, e04, e14, e24, e34))
-    pre: n >= 2 and e01 and c0
+    pre: e01 and c0
     post: _ == True
     """
-    return not insert_context_structure(n, e01, e02, e12, e03, e13, e23, e04, e14, e24, e34, c0, c1, c2, c3, c4, ctx)
+    return not insert_context_structure(e01, e02, e12, e03, e13, e23, e04, e14, e24, e34, c0, c1, c2, c3, c4, ctx)
 
 
-def replace_task(n: int, e01: bool, e02: bool, e12: bool, e03: bool, e13: bool, e23: bool, e04: bool, e14: bool,
+def replace_task(e01: bool, e02: bool, e12: bool, e03: bool, e13: bool, e23: bool, e04: bool, e14: bool,
                  e24: bool, e34: bool, k: int, s0: int, s1: int, s2: int, s3: int, s4: int, snew: int) -> bool:
     """
     replace_task(t_k, new): exactly t_k is exchanged for `new`, with the edges of t_k; all other tasks and edges are
     kept; the resulting workflow evaluates to the reference (the replacement enters the workflow last).
-    pre: _shape_ok(n, (e01, e02, e12, e03, e13, e23, e04, e14, e24, e34))
-    pre: 0 <= k < n
+    pre: 0 <= k < N
     post: _ == True
     """
     _fresh()
     E = (e01, e02, e12, e03, e13, e23, e04, e14, e24, e34)
     s = (s0, s1, s2, s3, s4)
     calls = []
-    tasks, edges, wb = _build_add(n, E, s, calls)
+    tasks, edges, wb = _build_add(E, s, calls)
+    k = [i for i in range(N) if i == k][0]      # one path per value; k concrete from here on
     new = Task('new', _mk(k, calls), snew, snew)
     wb.replace_task(tasks[k], new)
     objs = dict(enumerate(tasks))
@@ -446,7 +440,7 @@ def replace_task(n: int, e01: bool, e02: bool, e12: bool, e03: bool, e13: bool, 
     wf = Workflow(wb)
     if not _structure_ok_unordered(wf, objs, edges):
         return False
-    nodes = list(range(n))
+    nodes = list(range(N))
     statics = [_statics(i, s) for i in nodes]
     statics[k] = (snew, snew)
     entry = [i for i in nodes if i != k] + [k]
@@ -454,98 +448,75 @@ def replace_task(n: int, e01: bool, e02: bool, e12: bool, e03: bool, e13: bool, 
     return _check_exec(wf, nodes, edges, expected, calls)
 
 
-def replace_task__twin(n: int, e01: bool, e02: bool, e12: bool, e03: bool, e13: bool, e23: bool, e04: bool,
+def replace_task__twin(e01: bool, e02: bool, e12: bool, e03: bool, e13: bool, e23: bool, e04: bool,
                        e14: bool, e24: bool, e34: bool, k: int, s0: int, s1: int, s2: int, s3: int, s4: int,
                        snew: int) -> bool:
     """
-    pre: _shape_ok(n, (e01, e02, e12, e03, e13, e23, e04, e14, e24, e34))
-    pre: 0 <= k < n
-    pre: n >= 3 and e02 and e12 and k == 0
+    pre: 0 <= k < N
+    pre: e02 and e12 and k == 0
+    pre: len(_sinks(list(range(N)), _edges((e01, e02, e12, e03, e13, e23, e04, e14, e24, e34)))) == 1
     post: _ == True
     """
-    return not replace_task(n, e01, e02, e12, e03, e13, e23, e04, e14, e24, e34, k, s0, s1, s2, s3, s4, snew)
+    return not replace_task(e01, e02, e12, e03, e13, e23, e04, e14, e24, e34, k, s0, s1, s2, s3, s4, snew)
 
 
-def _ab_ok(na, nb, ea=(), eb=()):
-    if not (1 <= na <= 3 and 1 <= nb <= 3):
-        return False
-    for (i, j), e in zip(PAIRS[:3], ea):
-        if e and j >= na:
-            return False
-    for (i, j), e in zip(PAIRS[:3], eb):
-        if e and j >= nb:
-            return False
-    if PIN_NA and na != PIN_NA:
-        return False
-    if PIN_NB and nb != PIN_NB:
-        return False
-    return True
-
-
-def _build_ab(na, nb, a01, a02, a12, b01, b02, b12, s, calls, share=False):
-    """Two declared graphs: A over ids 0..na-1, B over ids 3..3+nb-1 (B's first task is A's first task if share)."""
-    ea = [(i, j) for (i, j), e in zip(PAIRS[:3], (a01, a02, a12)) if e and j < na]
-    eb = [(3 + i, 3 + j) for (i, j), e in zip(PAIRS[:3], (b01, b02, b12)) if e and j < nb]
+def _build_ab(a01, a02, a12, b01, b02, b12, s, calls):
+    """Two declared graphs: A over ids 0..NA-1, B over ids 3..3+NB-1."""
+    ea = [(i, j) for (i, j), e in zip(PAIRS[:3], (a01, a02, a12)) if j < NA and e]
+    eb = [(3 + i, 3 + j) for (i, j), e in zip(PAIRS[:3], (b01, b02, b12)) if j < NB and e]
     objs = {}
-    for i in range(na):
+    for i in range(NA):
         objs[i] = Task(f'a{i}', _mk(i, calls), s[i])
-    for i in range(nb):
+    for i in range(NB):
         objs[3 + i] = Task(f'b{i}', _mk(3 + i, calls), s[3 + i])
     wa = WorkflowBuilder(name='A')
-    for i in range(na):
+    for i in range(NA):
         p = [objs[u] for (u, v) in ea if v == i]
         wa.add_task(objs[i], predecessors=p if p else None)
     wbb = WorkflowBuilder(name='B')
-    for i in range(nb):
+    for i in range(NB):
         p = [objs[u] for (u, v) in eb if v == 3 + i]
         wbb.add_task(objs[3 + i], predecessors=p if p else None)
     return objs, ea, eb, wa, wbb
 
 
-def _iw_ok(na, nb, ea, eb, pm, k, p0, p1, p2, rev):
-    """Bound and canonical encoding of the `predecessors` argument (unused selector parameters are pinned)."""
-    if not _ab_ok(na, nb, ea, eb) or not 0 <= pm <= 2:
-        return False
-    if PIN_PM >= 0 and pm != PIN_PM:
-        return False
-    if pm == 1:
-        return 0 <= k < na and not (p0 or p1 or p2 or rev)
-    if k != 0:
-        return False
-    if pm == 0:
-        return not (p0 or p1 or p2 or rev)
-    if (p1 and na < 2) or (p2 and na < 3):
-        return False
-    return p0 or p1 or p2
+def _iw_ok(k, p0, p1, p2):
+    """Bound of the `predecessors` selector: PM = 1: task index k; PM = 2: a non-empty subset of A."""
+    if PM == 1:
+        return 0 <= k < NA
+    if PM == 2:
+        return p0 or (NA > 1 and p1) or (NA > 2 and p2)
+    return True
 
 
-def insert_workflow(na: int, nb: int, a01: bool, a02: bool, a12: bool, b01: bool, b02: bool, b12: bool,
-                    pm: int, k: int, p0: bool, p1: bool, p2: bool, rev: bool,
+def insert_workflow(a01: bool, a02: bool, a12: bool, b01: bool, b02: bool, b12: bool,
+                    k: int, p0: bool, p1: bool, p2: bool, rev: bool,
                     s0: int, s1: int, s2: int, s3: int, s4: int, s5: int) -> bool:
     """
-    insert_workflow(B, predecessors): pm = 0 None (all output tasks of A), 1 a single Task a_k, 2 a non-empty list
-    (subset of A, ascending or reversed).  outputs:inputs N:N are connected pairwise in order, N:1 all to the input,
-    1:N the output to all inputs, anything else is refused with ValueError.  Afterwards the builder holds exactly the
-    tasks of A and B and the edges of A, B and the connection, and evaluates to the reference.
-    pre: _iw_ok(na, nb, (a01, a02, a12), (b01, b02, b12), pm, k, p0, p1, p2, rev)
+    A.insert_workflow(B, predecessors) for A of NA and B of NB tasks: PM = 0 None (all output tasks of A), 1 a single
+    Task a_k, 2 a non-empty list (subset of A, ascending or reversed).  outputs:inputs N:N are connected pairwise in
+    order, N:1 all outputs to the input, 1:N the output to all inputs, anything else is refused with ValueError.
+    Afterwards the builder holds exactly the tasks of A and B and the edges of A, B and the connection, B is
+    unchanged, and the result evaluates to the reference.
+    pre: _iw_ok(k, p0, p1, p2)
     post: _ == True
     """
     _fresh()
     s = (s0, s1, s2, s3, s4, s5)
     calls = []
-    objs, ea, eb, wa, wbb = _build_ab(na, nb, a01, a02, a12, b01, b02, b12, s, calls)
-    a_nodes = list(range(na))
-    b_nodes = [3 + i for i in range(nb)]
+    objs, ea, eb, wa, wbb = _build_ab(a01, a02, a12, b01, b02, b12, s, calls)
+    a_nodes = list(range(NA))
+    b_nodes = [3 + i for i in range(NB)]
     other = Workflow(wbb)
-    if pm == 0:
+    if PM == 0:
         outs = _sinks(a_nodes, ea)
         arg = None
-    elif pm == 1:
-        outs = [k]
-        arg = objs[k]
+    elif PM == 1:
+        outs = [i for i in a_nodes if i == k]
+        arg = objs[outs[0]]
     else:
         outs = [i for i, p in zip(a_nodes, (p0, p1, p2)) if p]
-        if rev:
+        if len(outs) > 1 and rev:
             outs.reverse()
         arg = [objs[i] for i in outs]
     ins = _sources(b_nodes, eb)
@@ -569,7 +540,7 @@ def insert_workflow(na: int, nb: int, a01: bool, a02: bool, a12: bool, b01: bool
     edges = ea + eb + conn
     if not _structure_ok_unordered(wa, objs, edges):
         return False
-    if not _structure_ok_unordered(other, {u: objs[u] for u in b_nodes}, eb):     # B itself untouched
+    if not _structure_ok_unordered(other, {u: objs[u] for u in b_nodes}, eb):
         return False
     wf = Workflow(wa)
     nodes = a_nodes + b_nodes
@@ -577,31 +548,30 @@ def insert_workflow(na: int, nb: int, a01: bool, a02: bool, a12: bool, b01: bool
     return _check_exec(wf, nodes, edges, expected, calls)
 
 
-def insert_workflow__twin(na: int, nb: int, a01: bool, a02: bool, a12: bool, b01: bool, b02: bool, b12: bool,
-                          pm: int, k: int, p0: bool, p1: bool, p2: bool, rev: bool,
+def insert_workflow__twin(a01: bool, a02: bool, a12: bool, b01: bool, b02: bool, b12: bool,
+                          k: int, p0: bool, p1: bool, p2: bool, rev: bool,
                           s0: int, s1: int, s2: int, s3: int, s4: int, s5: int) -> bool:
     """
-    pre: _iw_ok(na, nb, (a01, a02, a12), (b01, b02, b12), pm, k, p0, p1, p2, rev)
+    pre: _iw_ok(k, p0, p1, p2)
     post: _ == True
     """
-    return not insert_workflow(na, nb, a01, a02, a12, b01, b02, b12, pm, k, p0, p1, p2, rev, s0, s1, s2, s3, s4, s5)
+    return not insert_workflow(a01, a02, a12, b01, b02, b12, k, p0, p1, p2, rev, s0, s1, s2, s3, s4, s5)
 
 
-def add_operator(na: int, nb: int, a01: bool, a02: bool, a12: bool, b01: bool, b02: bool, b12: bool,
+def add_operator(a01: bool, a02: bool, a12: bool, b01: bool, b02: bool, b12: bool,
                  share: bool, as_builder: bool) -> bool:
     """
     `WorkflowBuilder + Workflow` and `Workflow + Workflow`: the sum holds exactly the tasks and edges of both
     operands (a task object present in both appears once), the operands are unchanged; a sum with more than one
-    output task cannot be turned into a dask graph (ValueError).
-    pre: _ab_ok(na, nb, (a01, a02, a12), (b01, b02, b12))
+    output task cannot be turned into a dask graph (ValueError), a sum with one evaluates to the reference.
     post: _ == True
     """
     _fresh()
     s = (1, 2, 3, 4, 5, 6)
     calls = []
-    objs, ea, eb, wa, wbb = _build_ab(na, nb, a01, a02, a12, b01, b02, b12, s, calls)
-    a_nodes = list(range(na))
-    b_nodes = [3 + i for i in range(nb)]
+    objs, ea, eb, wa, wbb = _build_ab(a01, a02, a12, b01, b02, b12, s, calls)
+    a_nodes = list(range(NA))
+    b_nodes = [3 + i for i in range(NB)]
     if share:
         # B additionally contains A's first task, feeding B's first task
         wbb.add_task(objs[0])
@@ -633,13 +603,12 @@ def add_operator(na: int, nb: int, a01: bool, a02: bool, a12: bool, b01: bool, b
     return _check_exec(fin, nodes, edges, expected, calls)
 
 
-def add_operator__twin(na: int, nb: int, a01: bool, a02: bool, a12: bool, b01: bool, b02: bool, b12: bool,
+def add_operator__twin(a01: bool, a02: bool, a12: bool, b01: bool, b02: bool, b12: bool,
                        share: bool, as_builder: bool) -> bool:
     """
-    pre: _ab_ok(na, nb, (a01, a02, a12), (b01, b02, b12))
     post: _ == True
     """
-    return not add_operator(na, nb, a01, a02, a12, b01, b02, b12, share, as_builder)
+    return not add_operator(a01, a02, a12, b01, b02, b12, share, as_builder)
 
 
 def _str_ok(a, b, c):
@@ -653,9 +622,9 @@ def _str_ok(a, b, c):
 
 def static_str_inputs(e01: bool, e02: bool, e12: bool, a: str, b: str, c: str, k: int) -> bool:
     """
-    Static inputs that are strings are passed to the task literally (same reference as exec_add), three tasks.
-    With VH_EXCL_RESULTS=1 the input class of the known finding (a static input equal to the dask key 'results')
-    is excluded.
+    Static inputs that are strings (any characters, length <= VH_MAXSTR) are passed to the task literally; three
+    tasks, same reference as exec_add.  With VH_EXCL_RESULTS=1 the input class of the known finding (a static input
+    equal to the dask key 'results') is excluded.
     pre: _str_ok(a, b, c)
     post: _ == True
     """
@@ -690,30 +659,34 @@ def static_str_inputs__twin(e01: bool, e02: bool, e12: bool, a: str, b: str, c: 
 # every obligation once concretely at import so that all networkx entry points used above are already built.
 
 def _warm():
-    global NMAX, PIN_N, PIN_E01, PIN_E12, PIN_NA, PIN_NB, PIN_PM
-    saved = (NMAX, PIN_N, PIN_E01, PIN_E12, PIN_NA, PIN_NB, PIN_PM)
-    NMAX, PIN_N, PIN_E01, PIN_E12, PIN_NA, PIN_NB, PIN_PM = 5, 0, -1, -1, 0, 0, -1
+    global N, EPIN, NA, NB, PM, VARIANTS
+    saved = (N, EPIN, NA, NB, PM, VARIANTS)
+    ok = []
     try:
         T, F = True, False
-        ok = [
-            exec_add(4, T, T, T, F, F, T, F, F, F, F, T, F, 1, 2, 3, 4, 5),
-            exec_add(3, T, F, F, F, F, F, F, F, F, F, F, T, 1, 2, 3, 4, 5),
-            exec_context(3, T, T, T, F, F, F, F, F, F, F, T, F, T, F, F, 9, 1, 2, 3, 4, 5),
-            insert_context_structure(3, T, T, T, F, F, F, F, F, F, F, T, F, F, F, F, 9),
-            replace_task(3, T, T, T, F, F, F, F, F, F, F, 0, 1, 2, 3, 4, 5, 6),
-            insert_workflow(3, 3, T, F, F, F, F, T, 0, 0, F, F, F, F, 1, 2, 3, 4, 5, 6),
-            insert_workflow(3, 3, F, F, F, F, F, F, 2, 0, T, T, F, T, 1, 2, 3, 4, 5, 6),
-            insert_workflow(2, 2, T, F, F, T, F, F, 1, 1, F, F, F, F, 1, 2, 3, 4, 5, 6),
-            add_operator(2, 2, T, F, F, T, F, F, T, T),
-            add_operator(2, 2, T, F, F, T, F, F, F, F),
-            static_str_inputs(T, F, T, 'ab', 'c', '', 1),
-        ]
+        EPIN, VARIANTS = '', True
+        N = 4
+        ok.append(exec_add(T, T, T, F, F, T, F, F, F, F, T, F, 1, 2, 3, 4, 5))
+        N = 3
+        ok.append(exec_add(T, F, T, F, F, F, F, F, F, F, F, T, 1, 2, 3, 4, 5))
+        ok.append(exec_context(T, T, T, F, F, F, F, F, F, F, T, F, T, F, F, 9, 1, 2, 3, 4, 5))
+        ok.append(insert_context_structure(T, T, T, F, F, F, F, F, F, F, T, F, F, F, F, 9))
+        ok.append(replace_task(T, T, T, F, F, F, F, F, F, F, 0, 1, 2, 3, 4, 5, 6))
+        NA, NB, PM = 3, 3, 0
+        ok.append(insert_workflow(T, F, F, F, F, T, 0, F, F, F, F, 1, 2, 3, 4, 5, 6))
+        PM = 2
+        ok.append(insert_workflow(F, F, F, F, F, F, 0, T, T, F, T, 1, 2, 3, 4, 5, 6))
+        NA, NB, PM = 2, 2, 1
+        ok.append(insert_workflow(T, F, F, T, F, F, 1, F, F, F, F, 1, 2, 3, 4, 5, 6))
+        ok.append(add_operator(T, F, F, T, F, F, T, T))
+        ok.append(add_operator(T, F, F, T, F, F, F, F))
+        ok.append(static_str_inputs(T, F, T, 'ab', 'c', '', 1))
         w = WorkflowBuilder()
         t = Task('w', _mk(0, []), 1)
         w.add_task(t)
         Workflow(w).get_upstream_tasks(t)
     finally:
-        NMAX, PIN_N, PIN_E01, PIN_E12, PIN_NA, PIN_NB, PIN_PM = saved
+        N, EPIN, NA, NB, PM, VARIANTS = saved
     return ok
 
 
